@@ -238,6 +238,12 @@ fn run_one(out: &mut dyn Write, line: &str, epoch: &mut u64) {
 
     let freq = c.u64("freq", 1_000_000_000_000);
     clock::configure(c.u64("delta", 1), c.u64("q", 1));
+    if c.has("regress") {
+        let v = c.list("regress");
+        clock::configure_regress(v[0], v[1], c.u64("seed", 0));
+    } else {
+        clock::configure_regress(0, 0, 0);
+    }
     // Every run starts from the same small base; threads of earlier runs never read the clock again.
     *epoch = c.u64("base", 1_000_000);
     clock::new_epoch(*epoch);
